@@ -79,6 +79,7 @@ inductive Expr where
   | contains (a b : Expr)                       -- `a in b` (keys of a dict, elements of a list / tuple)
   | comp (v : String) (it c e : Expr)           -- `[e for v in it if c]` / `filter(lambda v: c, it)` made a list
   | maxKey (v : String) (it key : Expr)         -- `max(it, key=lambda v: key)`: the first element whose key is largest
+  | items (a : Expr)                            -- `a.items()` of a dict, made a list of pairs (insertion order)
   deriving Repr, DecidableEq, Inhabited
 
 inductive Stmt where
@@ -98,6 +99,7 @@ inductive Stmt where
   | raise (exc : PyErr)
   | tryExcept (b : Stmt) (kind : PyErr) (h : Stmt)
   | warn (e : Expr)                             -- `logger.warning(e)`: appended to the variable `$log`
+  | setDefaultIdx (x : String) (k k2 e : Expr)  -- `x.setdefault(k, dict())[k2] = e` on a local dict of dicts
   deriving Repr, Inhabited
 
 /-- a slot per name; `none` = a local that has not been assigned yet (reading it is `UnboundLocalError`) -/
@@ -414,6 +416,12 @@ def evalExpr (ext : Ext) (env : Env) : Expr → M Val
     | some xs => compM (fun x => evalExpr ext (setVar env v x) c >>= truth) (fun x => evalExpr ext (setVar env v x) e) xs >>= fun ys =>
       .ok (.list (Val.ofList ys))
     | none => unsupported "iteration"
+  | .items a => evalExpr ext env a >>= fun d =>
+    match d with
+    | .dict sp => match dictEntries sp with
+      | some _ => .ok (.list sp)
+      | none => unsupported "dict"
+    | _ => unsupported "items of a non-dict"
 
 /-- `l.append(v)` -/
 def appendVal (l v : Val) : M Val :=
@@ -435,6 +443,22 @@ def setAt (l k v : Val) : M Val :=
       | none => .error (.internal "IndexError")
     | none => unsupported "item assignment"
   | _, _ => unsupported "item assignment"
+
+/-- `m.setdefault(k, dict())[k2] = v` on a dict of dicts: the inner dict is created at the end if `k` is new; an existing key keeps
+    its position (outer and inner) -/
+def setDefaultAt (m k k2 v : Val) : M Val :=
+  match m with
+  | .dict sp => match dictEntries sp with
+    | some es =>
+      match es.find? (·.1 == k) with
+      | some kv => match kv.2 with
+        | .dict isp => match dictEntries isp with
+          | some ies => .ok (.dict (encEntries (dictSet es k (.dict (encEntries (dictSet ies k2 v))))))
+          | Option.none => unsupported "dict"
+        | _ => unsupported "setdefault on a non-dict entry"
+      | Option.none => .ok (.dict (encEntries (es ++ [(k, .dict (encEntries [(k2, v)]))])))
+    | Option.none => unsupported "dict"
+  | _ => unsupported "setdefault"
 
 /-- how a statement ends -/
 inductive Res where
@@ -532,6 +556,11 @@ def exec (ext : Ext) : Nat → Stmt → Env → Res
     | .warn e =>
       match lookup env "$log" >>= fun l => evalExpr ext env e >>= fun v => appendVal l v with
       | .ok nl => .norm (setVar env "$log" nl)
+      | .error err => .exc err env
+    | .setDefaultIdx x k k2 e =>
+      match evalExpr ext env e >>= fun v => lookup env x >>= fun m => evalExpr ext env k >>= fun kv => evalExpr ext env k2 >>= fun kv2 =>
+            setDefaultAt m kv kv2 v with
+      | .ok nm => .norm (setVar env x nm)
       | .error err => .exc err env
 
 /-- a function body run to completion: its return value (`None` when it falls off the end) or the exception it raises -/
